@@ -29,7 +29,9 @@ Print Assumptions C02_checker.
 
 (* ------------------------------------------------------------------ VnBest *)
 
-(* matching lengths, non-negative weights (flt: the weights are f64 holding
+(* (C14 also has generic-arithmetic / genuine-f64 versions of the VnBest
+   theorems; they are not restated here.)
+   matching lengths, non-negative weights (flt: the weights are f64 holding
    integers): Ok -- no error, no panic, the loop ends within its fuel (1 + the
    sum of the squared part loads, built into the model) -- same length, no id
    above the input's maximum *)
@@ -146,20 +148,47 @@ Theorem C02_arcswap_ids : forall hr g vw p0 T cap st0 sch st,
 Proof. exact AsC.arcswap_ids. Qed.
 Print Assumptions C02_arcswap_ids.
 
-(* PARTIAL.  No panic, no deadlock, no hang, for arc_swap's configuration with
-   the EXACT per-thread share (headroom_quot): the prologue does not panic;
-   from every reachable state in which the outer loop has not exited every
-   worker that is not done can perform its next access (no index out of
-   bounds, no `unwrap` on None) and some worker can move; there is no infinite
-   schedule (the one-more-access relation is well founded); every reachable
-   state can be run to completion; ids and length as above.
-   What is missing / assumed: sequential consistency of the atomics (the
-   interleaving semantics itself); the share the code computes in f64 is
-   covered only where it equals the exact quotient: C05 proves that for
-   headrooms in [-512, 512] and 1..4 threads (C05_f64_share_exact_small) and
-   checks it per run beyond (headroom_checked) -- it is not a theorem for all
-   operands; integer i64 weights (unsigned weights: open known finding of C05). *)
+(* No panic, no deadlock, no hang, for arc_swap's configuration WITH THE SHARE
+   THE CODE COMPUTES (headroom_f64: `W::from_f64((max - pw).to_f64() /
+   thread_count as f64)`): the prologue does not panic; from every reachable
+   state in which the outer loop has not exited every worker that is not done
+   can perform its next access (no index out of bounds, no `unwrap` on None)
+   and some worker can move; there is no infinite schedule (the
+   one-more-access relation is well founded); every reachable state can be run
+   to completion; ids and length as above.  Derived from the exact-share
+   statement below and C05_f64_share_irrelevant (the f64 share IS the exact
+   quotient below 2^53: Flocq, classical-reals axioms).
+   Still named PARTIAL, for one premise that is narrower than the usage
+   contract ("sums that do not overflow"): |cap| + total vertex weight < 2^53
+   (and at most 2^53 vertices); for i64 totals in [2^53, 2^63) the f64 share
+   can differ from the exact quotient and only the exact-share theorem below
+   applies.  Sequential consistency of the atomics is the interleaving
+   semantics the property itself quantifies over ("every thread interleaving"),
+   not an extra premise; weights are integers (i64) -- unsigned weight types are
+   the open known finding of C05. *)
 Theorem C02_arcswap_partial : forall g vw p0 T cap,
+  ArcSwap.graph_ok g -> length vw = length g -> length p0 = length g -> (1 <= length g)%nat -> (1 <= T)%nat ->
+  Forall (fun x => (0 <= x)%Z) vw -> (Z.of_nat (length g) <= 2 ^ 53)%Z -> (Z.abs cap + sumZ vw < 2 ^ 53)%Z ->
+  let cf := ArcSwap.config_of ArcSwap.headroom_f64 g vw p0 T cap in
+  ArcSwap.init_state cf p0 <> None /\
+  forall st0 sch st, ArcSwap.init_state cf p0 = Some st0 -> ArcSwap.run cf st0 sch = Some st ->
+    (ArcSwap.g_fin st = false ->
+       (forall t w, nth_opt (ArcSwap.g_ws st) t = Some w -> ArcSwap.w_pc w <> ArcSwap.PDone ->
+                    ArcSwap.step cf st t <> None)
+       /\ exists t st', ArcSwap.step cf st t = Some st')
+    /\ Acc (ArcSwapTerm.step_rel cf) st
+    /\ (forall f : nat -> nat, exists m, ArcSwap.run cf st (map f (seq 0 m)) = None)
+    /\ (exists sch' st', ArcSwap.run cf st sch' = Some st' /\ ArcSwap.g_fin st' = true)
+    /\ length (ArcSwap.g_part st) = length p0
+    /\ Forall (fun x => (x < ArcSwap.part_count p0)%nat) (ArcSwap.g_part st).
+Proof. exact AsC.arcswap_runs_f64. Qed.
+Print Assumptions C02_arcswap_partial.
+
+(* PARTIAL: the same for the EXACT per-thread share (headroom_quot: an
+   idealisation of the code's f64 expression), with no bound on the weights and
+   no axiom.  What is missing is only that this is the share of the code --
+   which C02_arcswap_partial above supplies below 2^53. *)
+Theorem C02_arcswap_exact_share_partial : forall g vw p0 T cap,
   ArcSwap.graph_ok g -> length vw = length g -> length p0 = length g -> (1 <= length g)%nat -> (1 <= T)%nat ->
   let cf := ArcSwap.config_of ArcSwap.headroom_quot g vw p0 T cap in
   ArcSwap.init_state cf p0 <> None /\
@@ -174,7 +203,7 @@ Theorem C02_arcswap_partial : forall g vw p0 T cap,
     /\ length (ArcSwap.g_part st) = length p0
     /\ Forall (fun x => (x < ArcSwap.part_count p0)%nat) (ArcSwap.g_part st).
 Proof. exact AsC.arcswap_runs. Qed.
-Print Assumptions C02_arcswap_partial.
+Print Assumptions C02_arcswap_exact_share_partial.
 
 (* ------------------------------------------------------------------ KMeans *)
 
